@@ -169,7 +169,7 @@ func paramRoleFromCallers(p *core.Prog, fn *ssa.Function, prm *ssa.Parameter) st
 type parserInfo struct {
 	fn        *ssa.Function
 	regex     string
-	narrow    []string       // conversions of a captured number that cannot represent every printable value
+	narrow    []string // conversions of a captured number that cannot represent every printable value
 	nConv     int
 	groupRole map[int]string // capture group -> role
 	groupCmp  map[int][]string
